@@ -202,7 +202,7 @@ def run(R):
     for i in range(n):
         tree, search, replace = scenario(g, i)
         for level in (0, 1, 2, 3):
-            for variant in ("plain", "exclude", "include", "lines", "replace_cmd"):
+            for variant in ("plain", "exclude", "include", "include_exclude", "lines", "replace_cmd"):
                 if quick and variant != "plain" and (i + level) % 3:
                     continue
                 with cli.Sandbox(tree) as sb:
@@ -225,6 +225,14 @@ def run(R):
                     elif variant == "include":
                         includes = ["src/**"]
                         extra = ["--include", "src/**"]
+                    elif variant == "include_exclude":
+                        # both at once: an entry has to pass the include globs AND stay clear of the exclude globs
+                        includes, excludes = [["**/*.rs"], ["src/**"], ["**"]][(i + level) % 3], [["src/gen/**"], ["src/deep/**", "Vendor/**"], ["*.txt", "vendor/**"]][(i + level) % 3]
+                        extra = []
+                        for x in includes:
+                            extra += ["--include", x]
+                        for x in excludes:
+                            extra += ["--exclude", x]
                     elif variant == "lines":
                         extra = ["--exclude-matching-lines", "^second"]
                     entries = sb.tree_entries(state=True)
